@@ -23,27 +23,35 @@ import (
 	"verifharness/tv"
 )
 
-// maxLen is the string/bytes maximum of this process (0 = engine default).
-var maxLen int
+// maxLen is the string maximum of this process (0 = engine default), maxBytes
+// the bytes maximum (VERIF_MAXBYTES; the same as maxLen unless set: the two
+// limits are separate settings and a check against the wrong one only shows
+// when they differ).
+var maxLen, maxBytes int
 
 func TestMain(m *testing.M) {
 	if s := os.Getenv("VERIF_MAXLEN"); s != "" {
 		maxLen, _ = strconv.Atoi(s)
+		maxBytes = maxLen
+		if b := os.Getenv("VERIF_MAXBYTES"); b != "" {
+			maxBytes, _ = strconv.Atoi(b)
+		}
 		if maxLen > 0 {
 			tengo.MaxStringLen = maxLen
-			tengo.MaxBytesLen = maxLen
+			tengo.MaxBytesLen = maxBytes
 		}
 	}
 	ev.Main(m, "C06")
 }
 
 type payload struct {
-	Sub     string               `json:"sub"` // alloc | strlen | recursion
-	Program *lang.Program        `json:"program,omitempty"`
-	Inputs  map[string]*lang.Val `json:"inputs,omitempty"`
-	Source  string               `json:"source"`
-	MaxLen  int                  `json:"max_len,omitempty"`
-	Budgets []int64              `json:"budgets,omitempty"`
+	Sub      string               `json:"sub"` // alloc | strlen | recursion
+	Program  *lang.Program        `json:"program,omitempty"`
+	Inputs   map[string]*lang.Val `json:"inputs,omitempty"`
+	Source   string               `json:"source"`
+	MaxLen   int                  `json:"max_len,omitempty"`
+	MaxBytes int                  `json:"max_bytes,omitempty"`
+	Budgets  []int64              `json:"budgets,omitempty"`
 }
 
 func render(p *lang.Program) (string, map[string]string) {
@@ -153,6 +161,45 @@ func checkAlloc(t ev.TB, test string, pl payload) {
 			}
 		}
 	}
+	// A VM can be run again: every Run re-arms the allocation budget. Closed
+	// programs (no host inputs: every global is re-initialised by the program)
+	// are run three times on one VM under budgets around A; every run must end
+	// like the first and count the same allocations.
+	if len(inputs) == 0 && len(mods) == 0 {
+		for _, n := range []int64{A + 2, A, A - 1, A / 2} {
+			if n < 0 {
+				continue
+			}
+			u2, cerr2 := bridge.CompileUnit(src, mods, inputs, nil)
+			if cerr2 != nil {
+				break
+			}
+			vm := tengo.NewVM(u2.Bytecode, u2.Globals, n)
+			var first string
+			for k := 1; k <= 3; k++ {
+				var left int64
+				steps := 0
+				tengo.VerifSetProbe(func(v *tengo.VM) {
+					left = v.VerifAllocsLeft()
+					if steps++; steps > 3000000 {
+						v.Abort()
+					}
+				})
+				err := vm.Run()
+				tengo.VerifSetProbe(nil)
+				if steps > 3000000 {
+					break
+				}
+				out := fmt.Sprintf("limit-error=%v error=%v allocations-counted-before-the-last-instruction=%d", err != nil && errors.Is(err, tengo.ErrObjectAllocLimit), err != nil, n+1-left)
+				if k == 1 {
+					first = out
+				} else if out != first {
+					failf("one VM, allocation budget %d (the program needs %d), run %d ends differently from run 1:\n run 1: %s\n run %d: %s\n--- source ---\n%s", n, A, k, first, k, out, clip(src))
+					return
+				}
+			}
+		}
+	}
 	kinds := len(base.Stats.AllocKinds)
 	nt := A >= 5 && kinds >= 3
 	cls := []string{"a:alloc-budget", "a:status:" + base.Status}
@@ -221,8 +268,8 @@ func tooLong(o tengo.Object, max int, depth int) string {
 			return fmt.Sprintf("string of %d bytes", len(x.Value))
 		}
 	case *tengo.Bytes:
-		if len(x.Value) > max {
-			return fmt.Sprintf("bytes of %d bytes", len(x.Value))
+		if len(x.Value) > maxBytes {
+			return fmt.Sprintf("bytes of %d bytes (bytes maximum %d)", len(x.Value), maxBytes)
 		}
 	case *tengo.Array:
 		for _, e := range x.Value {
@@ -266,12 +313,12 @@ func tooLongMap(m map[string]tengo.Object, max, depth int) string {
 func checkStrLen(t ev.TB, test string, pl payload) {
 	ev.InFlight(test, pl)
 	defer ev.InFlightDone()
-	if pl.MaxLen != maxLen {
-		t.Fatalf("replay needs VERIF_MAXLEN=%d (process has %d)", pl.MaxLen, maxLen)
+	if pl.MaxLen != maxLen || (pl.MaxBytes != 0 && pl.MaxBytes != maxBytes) {
+		t.Fatalf("replay needs VERIF_MAXLEN=%d VERIF_MAXBYTES=%d (process has %d / %d)", pl.MaxLen, pl.MaxBytes, maxLen, maxBytes)
 	}
 	p, inputs := pl.Program, pl.Inputs
 	cfg := ref.DefaultConfig()
-	cfg.MaxStringLen, cfg.MaxBytesLen = maxLen, maxLen
+	cfg.MaxStringLen, cfg.MaxBytesLen = maxLen, maxBytes
 	want, why := refx.Stable(p, inputs, cfg)
 	if why != "" {
 		ev.Discard(why)
@@ -358,7 +405,7 @@ func checkStrLen(t ev.TB, test string, pl payload) {
 		}
 	}
 	nt := limitWanted || near
-	cls := []string{"b:strlen", fmt.Sprintf("b:max=%d", maxLen), "b:status:" + want.Status}
+	cls := []string{"b:strlen", fmt.Sprintf("b:max=%d/bytes=%d", maxLen, maxBytes), "b:status:" + want.Status}
 	if limitWanted {
 		cls = append(cls, "b:limit-hit:"+want.RErr.Kind)
 	}
@@ -408,7 +455,7 @@ func TestStringLimits(t *testing.T) {
 		}
 		o := gen.Opts{MaxStmts: 10, MaxDepth: 3, StringHeavy: true, NoTime: true}
 		p, _ := gen.Program(t, o, inputs)
-		checkStrLen(t, "TestStringLimits", payload{Sub: "strlen", Program: p, Inputs: inputs, MaxLen: maxLen})
+		checkStrLen(t, "TestStringLimits", payload{Sub: "strlen", Program: p, Inputs: inputs, MaxLen: maxLen, MaxBytes: maxBytes})
 	})
 }
 
@@ -497,8 +544,8 @@ func replayFile(t *testing.T, path string) {
 	case "alloc":
 		checkAlloc(t, test, p)
 	case "strlen":
-		if p.MaxLen != maxLen {
-			t.Skipf("needs VERIF_MAXLEN=%d", p.MaxLen)
+		if p.MaxLen != maxLen || (p.MaxBytes != 0 && p.MaxBytes != maxBytes) {
+			t.Skipf("needs VERIF_MAXLEN=%d VERIF_MAXBYTES=%d", p.MaxLen, p.MaxBytes)
 		}
 		checkStrLen(t, test, p)
 	case "recursion":
